@@ -7,10 +7,38 @@ MODES_QUICK = [("wf", 170), ("close", 40), ("names", 60), ("topics", 30), ("floa
 CONF_QUICK = [("wf", 110), ("close", 30), ("names", 20)]     # Coordinator.Configure cases, 6 Configure runs each
 
 
+_GEN_HEADER = ("(* FALLBACK written by checks/c20.py: the translator failed on this tree. *)\n"
+               "From Coq Require Import ZArith NArith List String Ascii.\nFrom Burrow Require Import Tmpl.\n"
+               "Import ListNotations.\nOpen Scope string_scope.\n")
+_FALLBACK = {
+    "schema": _GEN_HEADER + 'Definition burrow_schema : Tmpl.schema := mkSchema [] "$data" [] "" [] "".\n',
+    "templates": _GEN_HEADER + "Definition all_templates : list (string * tmpl) := [].\n",
+}
+
+
 def pre(chk):
-    # regenerate the schema of the template data / helper table and the five shipped templates from /repo
-    C.write_gen("TmplSchema", C.run_translator("tmpl", ["schema"]))
-    C.write_gen("Templates", C.run_translator("tmpl", ["templates"]))
+    # regenerate the schema of the template data / helper table and the shipped templates from /repo.  A translator
+    # that cannot read the tree is a failed obligation (an empty table is written, on which every table obligation is
+    # false), not the end of the check: run() then decides by rendering the real templates on generated statuses.
+    for name, arg in (("TmplSchema", "schema"), ("Templates", "templates")):
+        try:
+            out = C.run_translator("tmpl", [arg])
+        except C.BuildError as e:
+            chk.obligation("translator:" + arg, False, str(e)[-1500:])
+            out = _FALLBACK[arg]
+        C.write_gen(name, out)
+
+
+def _differential(chk, lines, name):
+    """Model and implementation on the same lines; if the model cannot be built on this tree (a regenerated table does
+    not compile) the implementation alone is run and judged by the oracle."""
+    try:
+        return chk.differential("tmpl", "tmpl", "TestVerifProbeTmpl", lines, name=name)
+    except C.BuildError as e:
+        chk.obligation("model-builds", False, str(e)[-1500:])
+        impl = chk.run_impl("tmpl", "TestVerifProbeTmpl", lines, name=name)
+        chk.evaluations += len(lines)
+        return impl, ["(model not available)"] * len(lines), []
 
 
 def _batch(rng, scale, modes):
@@ -132,7 +160,9 @@ def run(chk, failed):
                 "Coordinator.Configure with its default parser 6 times each, executing the template objects it stored; plus a concurrent "
                 "stream (statuses with per-case distinct names rendered from 8/12/16 goroutines at once, byte-for-byte against the sequential output); "
                 "non-trivial = at least one partition is listed; distinct by case line")
-    impl, model, mism = chk.differential("tmpl", "tmpl", "TestVerifProbeTmpl", lines, name="render")
+    impl, model, mism = _differential(chk, lines, "render")
+    if any(n == "model-builds" for n, ok, _ in chk.obligations if not ok) and not failed:
+        failed = [("model-builds", "the extracted model does not build on this tree")]
     reported = 0
     failing = 0
     for i, (ln, c, tg, a, b) in enumerate(zip(lines, parsed, tags, impl, model)):
